@@ -2,7 +2,7 @@
 (dispatch tables, search order, safety gates; file-system outcomes and /bin/sh are not decided)."""
 from qv.core import AnalysisBroken
 from qv.esp import Engine, Outcome, TOP, fs
-from qv.lib import QHooks, holds_set
+from qv.lib import QHooks, holds_set, branch_zero_test, _cmp_parts
 from rules.C12 import StatusHooks, g1
 
 DASH = ord('-')
@@ -254,7 +254,12 @@ def run(ctx):
             okd = True
     r5.check(okd, 'forward-failure:D->100,else->111', mfw.unit + ':mailforward', '')
     rets = [x for x in mfw.all_x() if x.k == 'ret']
-    r5.check(any(any(c.strip().k == 'un' and c.strip().op == '!' and 'qqx' in c.strip().src() and t is True for c, t in mfw.guards(x) or []) for x in rets), 'forward-success-only-on-empty-qmail_close', mfw.unit + ':mailforward', '')
+    qcl = mfw.calls('qmail_close')
+    qv_ = None
+    for x_ in mfw.all_x():
+        if x_.k == 'asg' and qcl and x_.args[1].strip().id == qcl[0].id:
+            qv_ = x_.args[0].var
+    r5.check(qv_ is not None and any(any(branch_zero_test(c, t, lambda v: v.strip().k == 'un' and v.strip().op == '*' and v.strip().args[0].var == qv_) == 'zero' for c, t in mfw.guards(x) or []) for x in rets), 'forward-success-only-on-empty-qmail_close', mfw.unit + ':mailforward', '')
     r5.expect_min(3)
 
     # ---------------------------------------------------------------- 6/7/8
@@ -265,8 +270,13 @@ def run(ctx):
     if d100:
         g = [(c.strip(), t) for c, t in bx.guards(d100[0]) or []]
         samelen = any(c.k == 'bin' and c.op == '==' and {c.args[0].path(), c.args[1].path()} == {'G:messline.len', 'G:dtline.len'} and t is True for c, t in g)
-        same = any(c.k == 'un' and c.op == '!' and c.args[0].strip().k == 'call' and c.args[0].strip().callee in ('strncmp', 'memcmp', 'byte_diff') and
-                   {a.path() for a in c.args[0].strip().args[:2]} == {'G:messline.s', 'G:dtline.s'} and c.args[0].strip().args[2].path() == 'G:dtline.len' and t is True for c, t in g)
+        same = False
+        for c, t in bx.guards(d100[0]) or []:
+            z = branch_zero_test(c, t, lambda v: v.strip().k == 'call' and v.strip().callee in ('strncmp', 'memcmp', 'byte_diff'))
+            if z == 'zero':
+                cl = _cmp_parts(c)[0].strip()
+                if {a.path() for a in cl.args[:2]} == {'G:messline.s', 'G:dtline.s'} and cl.args[2].path() == 'G:dtline.len':
+                    same = True
         okb = samelen and same
     r6.check(okb, 'bouncexf:exit-100-iff-a-header-line-equals-dtline', bx.unit + ':bouncexf', 'needs len == dtline.len and equality over dtline.len bytes')
     stop = any(b.cond is not None and holds_set(b.cond, True, lambda v: v.path() == 'G:messline.len') and holds_set(b.cond, True, lambda v: v.path() == 'G:messline.len')(1)
